@@ -423,17 +423,15 @@ def dispatch (c : Ctx) (r : Row) (options : BitVec 32) (o0 o1 o2 o3 : Op) : Exce
     else if isign3 == RM then
       if !o0.isGp then .error .unmodelled else
       let m := memOf o1
-      -- `mov ah, [abs]` takes the accumulator path too (AH has the id of AL): a defect (fixes/C01-15.patch), not modelled
-      if o0.id == 0 && m.baseType == 0 && m.indexType == 0 && o0.isGp8Hi then .error .unmodelled else
-      if o0.id == 0 && m.baseType == 0 && m.indexType == 0 && shouldUseMovabs c o0.rmSize options m then
+      -- AH has the id of AL but no moffs form (repaired code, fixes/C01-15.patch)
+      if o0.id == 0 && m.baseType == 0 && m.indexType == 0 && !o0.isGp8Hi && shouldUseMovabs c o0.rmSize options m then
         emitMovAbs c (addArithBySize 0#32 o0.rmSize + 0xA0#32) options m else
       let (opt1, rg) := if o0.rmSize == 1 then fixupGpb options o0 (r32 o0.id) else (options, r32 o0.id)
       emitX86M c (addArithBySize 0#32 o0.rmSize + 0x8A#32) opt1 rg m 0 0
     else if isign3 == MR then
       if !o1.isGp then .error .unmodelled else
       let m := memOf o0
-      if o1.id == 0 && m.baseType == 0 && m.indexType == 0 && o1.isGp8Hi then .error .unmodelled else
-      if o1.id == 0 && m.baseType == 0 && m.indexType == 0 && shouldUseMovabs c o1.rmSize options m then
+      if o1.id == 0 && m.baseType == 0 && m.indexType == 0 && !o1.isGp8Hi && shouldUseMovabs c o1.rmSize options m then
         emitMovAbs c (addArithBySize 0#32 o1.rmSize + 0xA2#32) options m else
       let (opt1, rg) := if o1.rmSize == 1 then fixupGpb options o1 (r32 o1.id) else (options, r32 o1.id)
       emitX86M c (addArithBySize 0#32 o1.rmSize + 0x88#32) opt1 rg m 0 0
@@ -454,15 +452,13 @@ def dispatch (c : Ctx) (r : Row) (options : BitVec 32) (o0 o1 o2 o3 : Op) : Exce
   | 0x2d =>                                                                       -- X86Movabs (moffs forms; `movabs r64, imm64` not modelled)
     if isign3 == RM then
       let m := memOf o1
-      if !o0.isGp || o0.id != 0 then .error .invalidInstruction
-      else if o0.isGp8Hi then .error .unmodelled                                   -- (defect, fixes/C01-15.patch)
+      if !o0.isGp || o0.id != 0 || o0.isGp8Hi then .error .invalidInstruction
       else if m.baseType != 0 || m.indexType != 0 then .error .invalidAddress
       else if m.addrType == 2 then .error .invalidAddress
       else emitMovAbs c (addArithBySize 0xA0#32 o0.rmSize) options m
     else if isign3 == MR then
       let m := memOf o0
-      if !o1.isGp || o1.id != 0 then .error .invalidInstruction
-      else if o1.isGp8Hi then .error .unmodelled
+      if !o1.isGp || o1.id != 0 || o1.isGp8Hi then .error .invalidInstruction
       else if m.baseType != 0 || m.indexType != 0 then .error .invalidAddress
       else emitMovAbs c (addArithBySize 0xA2#32 o1.rmSize) options m
     else .error .unmodelled
